@@ -26,3 +26,11 @@ pub mod stream;
 #[cfg(all(test, aws_s2n_quic_verif))]
 #[path = "/verif/engines/txmc/cid.rs"]
 mod verif_txmc_cid;
+
+// verif hook H1 (add-only): loss-recovery and ACK-manager model-checking harnesses
+#[cfg(all(test, aws_s2n_quic_verif))]
+#[path = "/verif/engines/txmc/recovery.rs"]
+mod verif_txmc_recovery;
+#[cfg(all(test, aws_s2n_quic_verif))]
+#[path = "/verif/engines/txmc/ackmgr.rs"]
+mod verif_txmc_ackmgr;
